@@ -27,6 +27,7 @@ type Flags struct {
 
 	// finding flags — deviations from the statements, listed in known_findings.json
 	TryCatchesControl bool // return/break/continue inside a try body are diverted into the catch block
+	ZeroParamSpread   bool // f0(xs...) on a zero-parameter function is accepted and its operands are never evaluated
 }
 
 // Unspec is raised when a program leaves the domain the statements determine.
@@ -1104,6 +1105,10 @@ func (in *Interp) prepareCall(c *gen.Call, sc *Scope, fr *frame) (fn Value, args
 			unspec("spread into a variadic function with a different number of expressions")
 		}
 	} else if m > nparams {
+		if nparams == 0 && in.fl.ZeroParamSpread {
+			in.UsedFinding = true
+			return fn, nil, nil, false
+		}
 		return reject()
 	}
 	for i, a := range c.Args[:m-1] {
@@ -1140,10 +1145,14 @@ func (in *Interp) prepareCall(c *gen.Call, sc *Scope, fr *frame) (fn Value, args
 	if len(l.E) > need {
 		unspec("spread with surplus elements")
 	}
-	if ptypes != nil {
-		unspec("spread into a fixed-arity Go function")
+	for j, ev := range l.E {
+		if ptypes != nil {
+			if e := convertible(ev, ptypes[m-1+j]); e != nil {
+				return nil, nil, e, false
+			}
+		}
+		args = append(args, ev)
 	}
-	args = append(args, l.E...)
 	return fn, args, nil, false
 }
 
@@ -1290,6 +1299,9 @@ func (in *Interp) host(s *gen.HostSpec, a []Value) (Value, *ErrVal) {
 	case "pg":
 		in.ev("pg " + Render(a[0]))
 		return a[0], nil
+	case "hg":
+		in.ev("hg " + Render(a[0].(*List)))
+		return nil, nil
 	case "gdone":
 		return nil, nil
 	case "gwait":
